@@ -825,15 +825,15 @@ func gen(t *common.Trace, e common.Engine, r *common.Rng, thorough bool) {
 	if want("race") {
 		t.Case("race")
 		e.Reset()
-		rounds := 40
+		rounds := 120
 		if thorough {
-			rounds = 400
+			rounds = 600
 		}
 		for _, w := range []int{2, 3, 8} {
 			res := common.Do(t, e, fmt.Sprintf("race %d %d", w, rounds))
 			t.Count("race:" + strings.SplitN(res, ":", 2)[0])
 		}
-		res := common.Do(t, e, fmt.Sprintf("race2 %d", rounds*8))
+		res := common.Do(t, e, fmt.Sprintf("race2 %d", rounds*3))
 		t.Count("race2:" + strings.SplitN(res, ":", 2)[0])
 	}
 }
